@@ -67,6 +67,21 @@ type Iface struct {
 	Name     string
 	TypeArgs []string // concrete type arguments for the harness ("" qualifier marked by %s)
 	Methods  int
+	// Unexported lists unexported methods; such an interface can only be
+	// mocked inside its own package and is left out of -pkg cells
+	Unexported []string
+}
+
+// Ifaces returns the interfaces of the cell's package that this cell mocks.
+func (c *Cell) Ifaces() []Iface {
+	var out []Iface
+	for _, i := range c.Pkg.Ifaces {
+		if len(i.Unexported) > 0 && c.Flags.Pkg != "" {
+			continue
+		}
+		out = append(out, i)
+	}
+	return out
 }
 
 // Pkg is one generated source package.
@@ -107,7 +122,7 @@ func (c *Cell) MoqArgs() []string {
 		a = append(a, "-out", "mock_gen.go")
 	}
 	a = append(a, ".")
-	for _, i := range c.Pkg.Ifaces {
+	for _, i := range c.Ifaces() {
 		if c.Flags.Alias {
 			a = append(a, i.Name+":"+c.MockName(i.Name))
 		} else {
@@ -448,6 +463,23 @@ func (g *gen) iface(name string, shared *embed, extra []string) (string, Iface) 
 		fmt.Fprintf(&b, "\t%s%s\n", mn, g.signature())
 		out.Methods++
 	}
+	if g.tp.Int(6) == 0 && !taken["Stat"] {
+		// a method whose name starts with "Reset" + another method's name
+		fmt.Fprintf(&b, "\tStat(key string) int\n\tResetStats(hard bool)\n")
+		taken["Stat"], taken["ResetStats"] = true, true
+		out.Methods += 2
+	}
+	if g.tp.Int(3) == 0 && !taken["Watch"] {
+		// parameters named like locals a generated body might want to declare
+		pool := []string{"fn", "f", "ok", "v", "ret", "res", "result", "zero", "args", "out", "calls", "lock", "m", "i", "s", "x", "tmp", "buf", "info", "c"}
+		a, b2 := pool[g.tp.Int(len(pool))], pool[g.tp.Int(len(pool))]
+		if a != b2 {
+			res := []string{"", " error", " (err error)", " (count int, err error)"}[g.tp.Int(4)]
+			fmt.Fprintf(&b, "\tWatch(topic string, %s any, %s func())%s\n", a, b2, res)
+			taken["Watch"] = true
+			out.Methods++
+		}
+	}
 	if len(g.tparams) > 0 && !taken["Pick"] {
 		// a generic interface always has a method whose single result is a bare type parameter
 		fmt.Fprintf(&b, "\tPick(k %s, n int) %s\n", g.tparams[len(g.tparams)-1], g.tparams[0])
@@ -508,6 +540,13 @@ func Generate(spec Spec) *Corpus {
 			// SyncImport test does; see DESIGN.md section 8)
 			g.imports["stdsync"] = true
 			extra = "\nvar _ stdsync.Mutex\n"
+		}
+		if tp.Int(3) == 0 {
+			// a sealed-style interface with unexported methods (in-package mocks only)
+			name := fmt.Sprintf("Iface%02dU", pi)
+			g.tparams = nil
+			fmt.Fprintf(&body, "\ntype %s interface {\n\tflush(n int, why string) error\n\tisNode()\n\tLabel(%s) string\n}\n", name, g.typ(1))
+			p.Ifaces = append(p.Ifaces, Iface{Name: name, Methods: 3, Unexported: []string{"flush", "isNode"}})
 		}
 		var names []string
 		for n := range g.imports {
